@@ -5,6 +5,10 @@
 //	mask <argc> <k> (<min> <max> <iter>)*k   registrations of one name, then a call
 //	vars <n> <names> <m>                     WithVariables names, m values passed to Run
 //
+// correspondence stream `ambientfree` (ambientfree.go; static hypothesis of Props/C19VM.lean):
+//
+//	<op|tgt|arg …>                           VerifCodes dump of a program compiled WITHOUT options
+//
 // oracles (model-free):
 //
 //	ambient  — generated programs over all builtins, compiled WITHOUT options, run in child
@@ -736,5 +740,6 @@ func main() {
 	optionReuseChecks(ctx)
 	builtinsOrderChecks(ctx)
 	ambientOracle(ctx)
+	ambientFreeStream(ctx) // stream `ambientfree` (Props/C19VM.lean), see ambientfree.go
 	ctx.Finish()
 }
